@@ -2,6 +2,7 @@
 pub mod common;
 pub mod c02;
 pub mod c03;
+pub mod c04;
 pub mod c05;
 pub mod c06;
 pub mod c07;
@@ -16,6 +17,7 @@ pub fn run(id: &str, cfg: &Cfg) -> Option<Report> {
     Some(match id {
         "C02" => c02::run(cfg),
         "C03" => c03::run(cfg),
+        "C04" => c04::run(cfg),
         "C05" => c05::run(cfg),
         "C06" => c06::run(cfg),
         "C07" => c07::run(cfg),
@@ -30,6 +32,7 @@ pub fn replay(id: &str, case: &J) -> Option<i32> {
     Some(match id {
         "C02" => c02::replay(case),
         "C03" => c03::replay(case),
+        "C04" => c04::replay(case),
         "C05" => c05::replay(case),
         "C06" => c06::replay(case),
         "C07" => c07::replay(case),
